@@ -77,3 +77,20 @@ JOBS['C04'] = [
      'defs': {'quick': {'K': 3, 'SMALL': 1, 'NOPS': 6}, 'thorough': {'K': 4, 'SMALL': 1, 'NOPS': 6}},
      'expect_reach': ['end', 'edit', 'undo', 'redo', 'undo-at-start', 'redo-at-end', 'history-cleared'], 'timeout': {'quick': 280, 'thorough': 1700}},
 ]
+
+# ---------------------------------------------------------------- C01
+META['C01'] = {
+    'bounds': {'quick': 'all files of <=4 bytes over 1..255 x all read chunkings x all ranges x all previous target lengths 0..7/absent; up to 2 lines with lengths from {0,1,1022..1026,2047..2049,4093..4099} (symbolic first/last/chunk-edge bytes), with/without final newline, target absent/shorter/longer; line counts {510..513,1023..1025}; sbuf growth step for all sizes < 2^30 (CBMC)',
+               'thorough': 'files of <=6 bytes; 3 boundary-length lines with symbolic ranges'},
+    'outside': 'files >= 2^30 bytes; line lengths between the windows (the code has no constant there); NUL bytes (excluded by the property); ftruncate/stat failure',
+    'assumptions': ['read() may return any count from 1 to the request (symbolic chunk size, constant per run)'],
+}
+JOBS['C01'] = [
+    {'name': 'roundtrip_bytes', 'harness': 'c01_rt.c', 'units': ['lbuf', 'sbuf', 'uc'],
+     'defs': {'quick': {'MODE': 0, 'N': 4}, 'thorough': {'MODE': 0, 'N': 6}}, 'expect_reach': ['end', 'whole']},
+    {'name': 'boundary_lengths', 'harness': 'c01_rt.c', 'units': ['lbuf', 'sbuf', 'uc'],
+     'defs': {'quick': {'MODE': 1, 'NL': 2, 'RANGE': 0}, 'thorough': {'MODE': 1, 'NL': 3, 'RANGE': 1}}, 'expect_reach': ['end', 'whole'],
+     'timeout': {'quick': 280, 'thorough': 1700}},
+    {'name': 'line_table_growth', 'harness': 'c01_rt.c', 'units': ['lbuf', 'sbuf', 'uc'],
+     'defs': {'MODE': 2}, 'expect_reach': ['end', 'whole'], 'max_steps': 200000000},
+]
